@@ -7,6 +7,7 @@ import (
 	"encoding/json"
 	"fmt"
 	"net"
+	"os"
 	"runtime"
 	"strings"
 	"sync"
@@ -110,10 +111,18 @@ func transportPair(kind string) (cli, srv net.Conn, err error) {
 	return c, a.c, nil
 }
 
+var phaseLog = os.Getenv("VSPDY_PHASES") != ""
+
+// hdr is a header block (names lower case).
+type hdr map[string][]string
+
+func (h hdr) Set(k, v string) { h[k] = []string{v} }
+func (h hdr) Del(k string)    { delete(h, k) }
+
 var serverHS = &http.Server{ReadTimeout: 10 * time.Minute, GracefulShutdownTimeout: 10 * time.Second}
 
-func synHeaders(o op) (http.Header, spdycli.SynInfo) {
-	h := http.Header{}
+func synHeaders(o op) (hdr, spdycli.SynInfo) {
+	h := hdr{}
 	info := spdycli.SynInfo{WellFormed: true, DeclLen: -1}
 	method := "POST"
 	if o.Fin {
@@ -149,6 +158,12 @@ func synHeaders(o op) (http.Header, spdycli.SynInfo) {
 }
 
 func runCase(spec *caseSpec) *caseResult {
+	t0 := time.Now()
+	phase := func(n string) {
+		if phaseLog {
+			fmt.Fprintf(os.Stderr, "case %d %s +%v\n", spec.Idx, n, time.Since(t0))
+		}
+	}
 	res := &caseResult{Obs: map[string]int64{}}
 	cs := newCaseServer(spec.Scripts)
 	model := spdycli.NewModel(cs, spec.MaxStreams)
@@ -181,6 +196,7 @@ func runCase(spec *caseSpec) *caseResult {
 	}
 	obs := func(k string) { conn.Locked(func() { model.Obs[k]++ }) }
 
+	phase("connected")
 	// ---- the script ----
 	for _, o := range spec.Ops {
 		if dead() {
@@ -267,8 +283,23 @@ func runCase(spec *caseSpec) *caseResult {
 				if s == nil {
 					return true
 				}
-				_, _, ubS, ubC := model.InboundBounds(s)
-				return model.ViewStream(s) == ubS && model.ViewConn() == ubC
+				done, _, _, _ := cs.Done(s.Token)
+				consumed := cs.Consumed(s.Token)
+				target := cs.ReadBudget(s.Token)
+				if s.Sent < target {
+					target = s.Sent
+				}
+				if !done && consumed < target {
+					return false
+				}
+				if !s.ClientFin && !s.ClientRst && !s.SrvRst && s.WURecv < consumed {
+					return false
+				}
+				var all int64
+				for _, x := range model.Streams() {
+					all += cs.Consumed(x.Token)
+				}
+				return model.WU0Recv() >= all
 			})
 			if !ok {
 				obs("settle_timeouts")
@@ -283,9 +314,9 @@ func runCase(spec *caseSpec) *caseResult {
 			cs.openGate(o.Tok, o.Gate)
 			conn.Note(spdycli.Event{Note: fmt.Sprintf("gate %d of handler %d opened", o.Gate, o.Tok)})
 		case "headers":
-			werr = conn.Headers(spdycli.KHeaders, o.ID, o.Fin, http.Header{"x-late": {"1"}})
+			werr = conn.Headers(spdycli.KHeaders, o.ID, o.Fin, hdr{"x-late": {"1"}})
 		case "synreply":
-			werr = conn.Headers(spdycli.KSynReply, o.ID, o.Fin, http.Header{":status": {"200"}, ":version": {"HTTP/1.1"}})
+			werr = conn.Headers(spdycli.KSynReply, o.ID, o.Fin, hdr{":status": {"200"}, ":version": {"HTTP/1.1"}})
 		case "goaway":
 			werr = conn.GoAway(o.ID, uint32(o.N))
 		case "unknown":
@@ -303,6 +334,7 @@ func runCase(spec *caseSpec) *caseResult {
 		}
 	}
 
+	phase("script done")
 	// ---- finale: let everything finish ----
 	if !dead() {
 		if r, _ := conn.Sync(waitLong); r == spdycli.SyncTimeout {
@@ -376,7 +408,9 @@ func runCase(spec *caseSpec) *caseResult {
 		}
 		return cs.runningHandlers() == 0
 	}
+	phase("finale sent")
 	quiesced := conn.WaitUntil(waitLong, ended)
+	phase("quiesced")
 	allDone := false
 	healthy := false
 	if !quiesced {
@@ -416,6 +450,7 @@ func runCase(spec *caseSpec) *caseResult {
 		}
 	}
 
+	phase("final sync")
 	// ---- shut down ----
 	conn.Close()
 	var end *bfe_spdy.VerifConnEnd
@@ -436,6 +471,7 @@ func runCase(spec *caseSpec) *caseResult {
 			What: fmt.Sprintf("%d handler goroutine(s) still blocked inside bfe_spdy %s after the connection ended:\n%s", n, waitLong, spdyStacks())})
 	}
 
+	phase("shut down")
 	// ---- final checks ----
 	var toks []int
 	for t := range spec.Scripts {
